@@ -48,8 +48,17 @@ func (m *Monitor) Seal(dir int, body []byte) []byte {
 		case d.stream != nil:
 			d.stream.XORKeyStream(dst, src)
 		case d.cbcEnc != nil:
-			if len(src)%d.cbcEnc.BlockSize() != 0 {
-				return false
+			bs := d.cbcEnc.BlockSize()
+			if len(src)%bs != 0 {
+				if !m.Loose {
+					return false
+				}
+				// a sender that does not care: whole blocks encrypted, the
+				// tail left as it is
+				k := len(src) / bs * bs
+				d.cbcEnc.CryptBlocks(dst[:k], src[:k])
+				copy(dst[k:], src[k:])
+				return true
 			}
 			d.cbcEnc.CryptBlocks(dst, src)
 		default:
